@@ -17,8 +17,16 @@ def asGlyph (j : Json) : R SrcGlyph := do
 def asGdef (j : Json) : R Gdef := do
   return ⟨← asList asStr (← field j "base"), ← asList asStr (← field j "lig"), ← asList asStr (← field j "mark")⟩
 
+def asRec (j : Json) : R (String × Int × Int) := do
+  match ← asArr j with
+  | [g, x, y] => return (← asStr g, ← asInt x, ← asInt y)
+  | _ => throw "mark record"
+
 def asInput (i : Json) : R Input := do
-  return { glyphs := ← asList asGlyph (← field i "glyphs"), gdef := ← asOpt asGdef (← field i "gdef"),
+  let pre ← match i.getObjVal? "pre" with
+    | .ok j => asList (asPair asStr (asList asRec)) j
+    | .error _ => pure []
+  return { pre := pre, glyphs := ← asList asGlyph (← field i "glyphs"), gdef := ← asOpt asGdef (← field i "gdef"),
            quant := ← asRat (← field i "quant"), group := ← asBool (← field i "group"),
            abvm := ← asList asStr (← field i "abvm"), notAbvm := ← asList asStr (← field i "notAbvm") }
 
